@@ -26,11 +26,13 @@ inputs:          about 10 % of the objects hold ONE container at two positions (
 import ast
 import base64
 import copy
+import datetime
 import itertools
 import logging
 import pickle
 import re
 from collections import namedtuple
+from decimal import Decimal
 
 from harness import core
 from harness import values as V
@@ -53,8 +55,7 @@ TRUSTED = ["regular expressions (the compiled item and exclude_regex_paths), str
            "ip ranges, datetimes, Decimal, numpy, user classes with __eq__ / __iter__ / __getattr__ are outside the universe; cyclic "
            "objects are outside the model (parents_ids: the model is a tree; shared sub-objects are unfolded)"]
 ASSUMPTIONS = ["floats are half-integers of small magnitude (repr without exponent); no nan/inf/-0.0",
-               "the item is a value of the shared universe (atom or plain container) or a pre-compiled pattern; regular expressions "
-               "given as items are valid (re.error of an invalid pattern is outside the model)",
+               "the item is a value of the shared universe (atom or plain container) or a pre-compiled pattern",
                "the searched object is tree shaped (no container reachable from itself)"]
 
 # ---------------------------------------------------------------------------
@@ -129,6 +130,43 @@ CLASS_ATTRS = {M: ("cv", "ameth"), E: ("ok", "bad")}
 ATTR_NAMES = ["a", "b", "c", "x", "ab", "A", "k1", "name", "val", "_p", "__q", "a1", "none", "root", "__d__", "ſa", "İb"]
 
 
+# ---------------------------------------------------------------------------
+# number-like leaves outside the atom universe (Coq: XNum type value text): every other float (0.1, 1e-07, 1e+16, nan,
+# inf, -0.0), Decimal, date / datetime / timedelta - `isinstance(obj, numbers)` in deepdiff: compared with == and, in
+# loose mode, through str(obj)
+# ---------------------------------------------------------------------------
+XFLOATS = [0.1, 1e-07, 1e+16, 1.25, -0.0, float("inf"), float("nan"), 123456.789, 1e+22, 2.5e-05, 3e+16]
+XDECIMALS = [Decimal("1.5"), Decimal("1E+3"), Decimal("0.10"), Decimal("2"), Decimal("-0.5"), Decimal("1.50"), Decimal("NaN")]
+XDATES = [datetime.date(2024, 1, 2), datetime.datetime(2024, 1, 2, 3, 4), datetime.datetime(2024, 1, 2), datetime.timedelta(days=1, seconds=5),
+          datetime.timedelta(0)]
+XNUM_TYPES = (Decimal, datetime.date, datetime.timedelta)
+
+
+def universe_float(x):
+    t = x * 2
+    return x == x and abs(x) < 1e15 and t == int(t) and not (x == 0 and str(x).startswith("-"))
+
+
+def is_xnum(v):
+    return isinstance(v, XNUM_TYPES) or (isinstance(v, float) and not universe_float(v))
+
+
+def xnum_value(v):
+    """the number of the universe that v is == to (None when there is none)"""
+    if isinstance(v, (float, Decimal)) and v == v and abs(v) != float("inf"):
+        if v == int(v):
+            return int(v)
+        if v * 2 == int(v * 2) and abs(v) < 1e15:
+            return float(v)
+    return None
+
+
+def xnum_coq(v):
+    ty = "(TyB TFloat)" if isinstance(v, float) else "(TyObj %s)" % core.coq_pystr(type(v).__name__)
+    val = xnum_value(v)
+    return "(XNum %s %s %s)" % (ty, "None" if val is None else "(Some %s)" % V.atom_to_coq(val), core.coq_pystr(str(v)))
+
+
 def is_named(v):
     return isinstance(v, tuple) and hasattr(type(v), "_fields")
 
@@ -170,6 +208,8 @@ def is_seq(v):
 
 def xcoq(v):
     """Coq term of type xvalue"""
+    if is_xnum(v):
+        return xnum_coq(v)
     if is_opaque(v):
         return "(XOpaque %s)" % core.coq_pystr(type(v).__name__)
     if has_attrs(v):
@@ -192,6 +232,8 @@ def xcanon(v, sort=False):
     """mirrors Coq's sx_xvalue (sort=True: dict / set order forgotten, for comparisons)"""
     if v is METHOD or is_method(v):
         return ["O", "method", []]
+    if is_xnum(v):
+        return ["X", str(v)]
     if is_opaque(v):
         return ["U", type(v).__name__] + ([sorted(([n, xcanon(x, True)] for n, x in _inst_state(v).items()), key=repr)] if sort else [])
     if has_attrs(v):
@@ -213,6 +255,8 @@ def xstate(v):
     """everything the object holds (unreadable objects and dunder attributes included): the `object not modified` check"""
     if is_method(v):
         return "method"
+    if is_xnum(v):
+        return ["X", repr(v)]
     if isinstance(v, (A, B, M, S, E)):
         return [type(v).__name__, sorted(([n, xstate(x)] for n, x in _inst_state(v).items()), key=repr)]
     if is_named(v):
@@ -235,7 +279,8 @@ def has_objects(v):
 NUMS = (bool, int, float)
 TYPES = {"str": str, "int": int, "float": float, "bool": bool, "list": list, "tuple": tuple, "dict": dict,
          "set": set, "frozenset": frozenset, "NoneType": type(None), "bytes": bytes,
-         "A": A, "B": B, "M": M, "S": S, "E": E, "P": P, "R": R}
+         "A": A, "B": B, "M": M, "S": S, "E": E, "P": P, "R": R,
+         "Decimal": Decimal, "datetime": datetime.datetime, "timedelta": datetime.timedelta}
 COQ_TY = {"str": "TStr", "int": "TInt", "float": "TFloat", "bool": "TBool", "list": "TList", "tuple": "TTuple",
           "dict": "TDict", "set": "TSet", "frozenset": "TFrozen", "NoneType": "TNone", "bytes": "TBytes"}
 
@@ -328,7 +373,7 @@ class RefRaise(Exception):
 
 
 def ref_search(obj, item, kw, emulate=()):
-    """Returns ('raise',) or ('ok', {path text: value} matched_paths, {path text: value} matched_values, [path text] unprocessed)."""
+    """Returns ('raise',) (TypeError), ('reerror',) (re.error) or ('ok', {path text: value} matched_paths, {path text: value} matched_values, [path text] unprocessed)."""
     E = set(emulate)
     cs_arg = kw.get("case_sensitive", False)
     ms = kw.get("match_string", False)
@@ -356,13 +401,16 @@ def ref_search(obj, item, kw, emulate=()):
     if rx:
         if needle is None:
             return ("raise",)               # documented: "not usable for regex" TypeError
-        if compiled:
-            pattern = item
-        elif "K16c" in E:
-            pattern = re.compile(needle)
-        else:
-            src = item if is_text_item else needle
-            pattern = re.compile(src, re.IGNORECASE if folding else 0)
+        try:
+            if compiled:
+                pattern = item
+            elif "K16c" in E:
+                pattern = re.compile(needle)       # (a valid pattern may be invalid once lower-cased: a\Z -> a\z)
+            else:
+                src = item if is_text_item else needle
+                pattern = re.compile(src, re.IGNORECASE if folding else 0)
+        except re.error:
+            return ("reerror",)                 # documented Python behaviour: re.compile raises re.error
 
     def rx_search(text, folded_text):
         if type(pattern.pattern) is not type(text):
@@ -384,7 +432,7 @@ def ref_search(obj, item, kw, emulate=()):
             if type(needle) is not type(v):
                 return False
             return fold(v) == needle if ms else needle in fold(v)
-        if isinstance(v, NUMS):
+        if isinstance(v, NUMS + XNUM_TYPES):
             if strict:
                 return isinstance(item, NUMS) and v == item
             txt = str(v)
@@ -483,6 +531,8 @@ def run_call(call):
         ds = call()
     except TypeError:
         return ("raise", "TypeError")
+    except re.error:
+        return ("reerror", "re.error")
     except Exception as e:   # anything else is not part of the model
         return ("crash", "%s: %s" % (type(e).__name__, e))
     out = []
@@ -533,11 +583,16 @@ STRS = ["a", "b", "ab", "abc", "A", "aB", "Abc", "ABC", "x y", "1", "10", "1.5",
 # Cyrillic / accented capitals (lower() == casefold(), non-ASCII), titlecase digraph
 UNI = ["Straße", "ΟΔΟΣ", "ſa", "ﬁx", "İb", "ÉA", "aΣ", "Σ", "ŉ", "Дa", "ǅ", "ß", "ςa", "AΣ b"]
 BYTES = [b"a", b"ab", b"A", b"", b"1"]
+# re.error out of re.compile; a\\Z and \\Ab are valid as written and invalid once lower-cased (K16c)
+BAD_PATTERNS = ["[a", "(", "*a", "a{2,1}", "(?P<n>a)(?P<n>b)", "a\\Z", "\\Ab", "\\Qx"]
 PATTERNS = ["a.", "^a", "b$", "[0-9]+", "\\d", ".*", "A|b", "\\S", "\\S+", "[A-Z]", "a?b", "\\[1\\]", "'a'", "oo", "\\W", "\\.5$", "^1$", "(a|1)+", "\\Bb"]
 EXCL_RX = ["\\[1\\]", "root\\['a'\\]", "\\[\\d+\\]$", "'b'", "^root\\[0\\]", "\\['?k", "None", "\\]\\["]
 
 
-def gen_leaf(rng, with_bytes):
+def gen_leaf(rng, with_bytes, exotic=None):
+    """exotic: 'num' adds floats outside the half-integers and Decimals, 'all' also dates / datetimes / timedeltas"""
+    if exotic and rng.random() < 0.22:
+        return rng.choice(XFLOATS + XDECIMALS + (XDATES if exotic == "all" else []))
     r = rng.random()
     if r < 0.12:
         return None if rng.random() < 0.4 else rng.random() < 0.5
@@ -567,9 +622,9 @@ def gen_obj(rng, depth, width, with_bytes, with_objs=False):
     """with_objs: instances (__dict__ / __slots__ / class attributes and methods), named tuples and objects whose
     attributes cannot be read (an unset slot, a property that raises) occur at every level; 'named': named tuples only"""
     if depth <= 0 or rng.random() < 0.2:
-        return gen_leaf(rng, with_bytes)
+        return gen_leaf(rng, with_bytes, "all" if with_objs is True else "num" if with_objs == "nums" else None)
     sub = lambda: gen_obj(rng, depth - 1, width, with_bytes, with_objs)     # noqa: E731
-    k = rng.choice("LLTDDDSF" + ("NN" if with_objs == "named" else "OOOONNU" if with_objs else ""))
+    k = rng.choice("LLTDDDSF" + ("NN" if with_objs == "named" else "" if with_objs == "nums" else "OOOONNU" if with_objs else ""))
     n = rng.randint(0, width)
     if k == "L":
         return [sub() for _ in range(n)]
@@ -638,7 +693,7 @@ def share_x(rng, obj):
 
 
 def is_atom(v):
-    return v is None or isinstance(v, (bool, int, float, str, bytes))
+    return v is None or isinstance(v, (bool, int, str, bytes)) or (isinstance(v, float) and universe_float(v))
 
 
 def is_plain(v):
@@ -674,6 +729,15 @@ def gen_item(rng, obj, locs, use_regexp):
     strs = [x for x in leaves + keys if isinstance(x, str)]
     nums = [x for x in leaves + keys if isinstance(x, NUMS)]
     texts = [path_text(s) for s, _, _ in locs]
+    xnums = [v for _, v, _ in locs if is_xnum(v)]
+    if xnums and rng.random() < 0.35:        # the text of a number-like leaf (whole / part / other case), the number it equals
+        x = rng.choice(xnums)
+        q = rng.random()
+        if use_regexp:
+            return re.escape(substrings(rng, str(x))) if q < 0.7 else rng.choice(["e[-+]", "^\\d+\\.\\d+$", "E", "-0", "[a-z]{3}"])
+        if q < 0.3 and xnum_value(x) is not None:
+            return xnum_value(x)
+        return str(x) if q < 0.75 else str(x).upper() if q < 0.85 else substrings(rng, str(x))
     r = rng.random()
     if use_regexp:
         if r < 0.08:
@@ -683,7 +747,9 @@ def gen_item(rng, obj, locs, use_regexp):
         if r < 0.5 and nums:
             return rng.choice(nums)
         if r < 0.53:
-            return rng.choice([b"a", b"1", b"."])
+            return rng.choice([b"a", b"1", b".", b"[a"])
+        if r < 0.57:
+            return rng.choice(BAD_PATTERNS)
         if r < 0.6:      # a pre-compiled pattern, with or without flags (re.compile returns it unchanged)
             if rng.random() < 0.15:
                 return re.compile(rng.choice([b"a", b"A.", b"\\d"]), rng.choice([0, re.I]))
@@ -796,13 +862,20 @@ def model_case(obj, item, cfg, locs):
         # the model gets the pattern's source as a case sensitive item (a non-string item forces case_sensitive=True);
         # the oracle table is computed with the compiled pattern itself, flags included
         eff, item, cs_model = item, item.pattern, True
-    if cfg["use_regexp"] and isinstance(eff, (str, bytes, re.Pattern)):
+    re_ok = True
+    if cfg["use_regexp"] and isinstance(eff, (str, bytes)):
+        try:
+            re.compile(eff)
+        except re.error:
+            re_ok = False
+    if re_ok and cfg["use_regexp"] and isinstance(eff, (str, bytes, re.Pattern)):
         pat = re.compile(eff)
         re_text = str(pat)
         subjects = set()
         if isinstance(pat.pattern, str):
             subjects.update(fold(x) for x in leaves if isinstance(x, str))
             subjects.update(str(x) for x in leaves if isinstance(x, NUMS))
+            subjects.update(str(v) for _, v, _ in locs if is_xnum(v))
             subjects.update(fold(t) for t in texts)
             re_true = sorted(s for s in subjects if pat.search(s))
         else:
@@ -818,14 +891,14 @@ def model_case(obj, item, cfg, locs):
         "; ".join(coq_xty(t) for t in cfg["exclude_types"]))
     if isinstance(item, CONTAINERS):
         re_text = str(item)
-    return "run_search %s %s %s %s %s %s %s str_attrs_ bytes_attrs_ %s %s" % (
-        core.coq_bool(cfg["verbose_level"] >= 2), c, coq_tbl_bool(re_true), coq_tbl_bool(ex_true), b_tbl, l_tbl,
+    return "run_search %s %s %s %s %s %s %s %s str_attrs_ bytes_attrs_ %s %s" % (
+        core.coq_bool(cfg["verbose_level"] >= 2), c, core.coq_bool(re_ok), coq_tbl_bool(re_true), coq_tbl_bool(ex_true), b_tbl, l_tbl,
         core.coq_pystr(re_text), V.to_coq(item), xcoq(obj))
 
 
 def expected_of(res, verbose2):
     if res[0] != "ok":
-        return "raise" if res[0] == "raise" else "crash:" + res[1]
+        return res[0] if res[0] in ("raise", "reerror") else "crash:" + res[1]
     if res[3]:
         return "other-keys:" + ",".join(res[3])
     if verbose2:
@@ -859,10 +932,11 @@ def compare(ref, res, verbose2):
     """None when the implementation's result equals the reference; else a description."""
     if res[0] == "crash":
         return "DeepSearch raised " + res[1]
-    if ref[0] == "raise" or res[0] == "raise":
+    if ref[0] != "ok" or res[0] != "ok":
         if ref[0] == res[0]:
             return None
-        return "DeepSearch raised TypeError" if res[0] == "raise" else "DeepSearch did not raise the documented TypeError"
+        what = {"raise": "TypeError", "reerror": "re.error"}
+        return ("DeepSearch raised %s" % what[res[0]]) if res[0] != "ok" else ("DeepSearch did not raise the documented %s" % what[ref[0]])
     if res[3]:
         return "unexpected result keys %r" % (res[3],)
     msgs = []
@@ -1053,10 +1127,12 @@ def do_case(ctx, obj, item, cfg, cases, tag):
     verbose2 = cfg["verbose_level"] >= 2
     nontrivial = res[0] != "ok" or bool(res[1]) or bool(res[2]) or bool(res[4])
     ctx.seen((repr(obj), repr(item), repr(sorted(cfg.items()))), nontrivial=nontrivial)
-    ctx.count("result:" + ("raise" if res[0] != "ok" else "paths+values" if res[1] and res[2] else "paths" if res[1]
+    ctx.count("result:" + (res[0] if res[0] != "ok" else "paths+values" if res[1] and res[2] else "paths" if res[1]
                            else "values" if res[2] else "empty"))
     if res[0] == "ok" and res[4]:
         ctx.count("result:unprocessed_nonempty")
+    if any(is_xnum(v) for _, v, _ in locs):
+        ctx.count("object:with_number_like_leaf")
     kinds = set("instance" if is_inst(v) else "named_tuple" if is_named(v) else "unreadable" if is_opaque(v) else
                 "method" if is_method(v) else None for _, v, _ in locs) - {None}
     ctx.count("object:" + ("+".join(sorted(kinds)) or "plain"))
@@ -1126,13 +1202,6 @@ def random_cases(ctx, n, with_objs=False, name="search_random", tag="random"):
         for _ in range(rng.choice([2, 3, 4])):
             cfg = gen_cfg(rng, locs)
             item = gen_item(rng, obj, locs, cfg["use_regexp"])
-            if cfg["use_regexp"] and isinstance(item, (str, bytes)):
-                try:
-                    re.compile(effective_item(item, cfg))
-                    re.compile(item)
-                except re.error:
-                    ctx.count("skipped:invalid_regex_after_lower")
-                    continue
             do_case(ctx, obj, item, cfg, cases, tag)
             if made < 3:
                 ctx.sample({"obj": repr(obj), "item": repr(item), "options": fmt_kw(cfg)})
@@ -1203,6 +1272,17 @@ def witnesses(ctx):
             ([{"İb": "İb"}, "i̇B", {"ﬁx": ["FIX", "ﬁX"]}, ("aΣ", "aσ", "aς", "AΣ b")], "aΣ", {}),
             ([{"İb": "İb"}, "i̇B", {"ﬁx": ["FIX", "ﬁX"]}, ("aΣ", "aσ", "aς", "AΣ b")], "ﬁX", {"case_sensitive": True}),
             ({"a']['b": 'x', 'a': {'b': 'xy'}}, 'x', {}),      # two locations, one text (Coq: result_dict_refuted)
+            # numbers outside the half-integers, Decimals: == and (loose) the exact text str(obj)
+            ([1e-7, 1e16, 0.1, Decimal("1.5"), Decimal("1E+3")], 1.5, {}),
+            ([1e-7, 1e16, 0.1, Decimal("1.5"), Decimal("1E+3")], "1.5", {"strict_checking": False}),
+            ([1e-7, 1e16, 0.1, Decimal("1.5"), Decimal("1E+3")], "e", {"strict_checking": False, "use_regexp": True}),
+            ([1e-7, 1e16, 0.1, Decimal("1.5"), Decimal("1E+3")], 1000, {}), ([1e-7, 1e16, {"k": 1e16}], 10 ** 16, {}),
+            ([1e-7, 1e16, 0.1], "1E-07", {"strict_checking": False, "case_sensitive": True}),
+            ([1e-7, 1e16, 0.1], "1E-07", {"strict_checking": False}),
+            ([Decimal("1.5"), 1.5, {"k": Decimal("1.5")}], 1.5, {"exclude_types": ["Decimal"]}),
+            ([float("nan"), float("inf"), -0.0, 0.0], 0, {}), ([float("nan"), float("inf"), -0.0, 0.0], "nan", {"strict_checking": False}),
+            ([float("nan"), float("inf"), -0.0, 0.0], "-0.0", {"strict_checking": False}), ([True, Decimal("1"), 1.0], True, {}),
+            ((Decimal("0.10"), Decimal("1.50"), 0.1), "0.1", {"strict_checking": False}),
             (["long somewhere", "string", 0, "somewhere great!"], "somewhere", {}),
             (["something somewhere", {"long": "somewhere", "string": 2, 0: 0, "somewhere": "around"}], "somewhere", {}),
             ({"long": "somewhere", "num": 1123456, 0: 0, "somewhere": "around"}, "1234", {"use_regexp": True, "strict_checking": False}),
@@ -1219,6 +1299,10 @@ def object_docs():
     """fixed cases with class instances, named tuples and unreadable objects"""
     docs = [
             # class instances (__dict__, class attribute + method, __slots__), named tuples, unreadable objects
+            ([datetime.date(2024, 1, 2), datetime.datetime(2024, 1, 2, 3, 4)], "2024-01-02", {"strict_checking": False}),
+            ([datetime.date(2024, 1, 2), datetime.datetime(2024, 1, 2, 3, 4)], "2024", {"strict_checking": False, "use_regexp": True}),
+            ([datetime.date(2024, 1, 2), {"k": datetime.timedelta(days=1, seconds=5)}], "2024-01-02", {}),
+            ([datetime.timedelta(days=1, seconds=5), datetime.timedelta(0)], "0:00:00", {"strict_checking": False, "exclude_types": ["datetime"]}),
             (A(b="x1", a=["x", 2]), "x", {}), (A(b="x1", a=["x", 2]), "a", {}), ([A(b="x1", a=["x", 2])], "A", {}),
             (M(zz="ameth"), "meth", {}), (M(zz="ameth", cv=3), "cv", {}), (M(zz="ameth"), "cv1", {"match_string": True}),
             (S(a=1, b="a", c=None), "a", {}), (S(a=1), "a", {}), ([S(a="a"), "a", E(x="a")], "a", {}), ({"k": S(a=1)}, "a", {}),
@@ -1234,7 +1318,8 @@ def object_docs():
 
 
 def only_named(obj):
-    return not any(is_inst(v) or is_opaque(v) or is_method(v) for _, v, _ in locations(obj))
+    return not any(is_inst(v) or is_opaque(v) or is_method(v) or isinstance(v, (datetime.date, datetime.timedelta))
+                   for _, v, _ in locations(obj))
 
 
 def object_examples(ctx):
@@ -1328,11 +1413,6 @@ def grep_reuse(ctx, n, with_objs=False):
             cfg["exclude_regex_paths"] = [rng.choice(EXCL_RX)]
         item = gen_item(rng, obj, locs, cfg["use_regexp"])
         objs = [obj, variant(rng, obj, with_bytes), obj][:rng.choice([2, 3, 3])]
-        if cfg["use_regexp"] and isinstance(item, (str, bytes)):
-            try:
-                re.compile(effective_item(item, cfg))
-            except re.error:
-                continue
         grep_sequence(ctx, objs, item, cfg, cases, "grep-random")
         made += 1
     ctx.coq_cases("search_grep" + ("_objects" if with_objs else ""), HEADER, cases, shard=250, label="grep_instance_reuse")
@@ -1345,6 +1425,8 @@ def run(ctx):
     # named tuples are tuples (the property's quantifier names tuples): part of the property's own streams
     random_cases(ctx, 2500 if ctx.thorough else 400, with_objs="named", name="search_named", tag="random-namedtuples")
     named_examples(ctx)
+    # numbers outside the half-integers (0.1, 1e-07, 1e+16, nan, inf, -0.0) and Decimals: exact text through str(obj)
+    random_cases(ctx, 2500 if ctx.thorough else 400, with_objs="nums", name="search_numbers", tag="random-numbers")
     universe_cases(ctx, 12000 if ctx.thorough else 600)
     # extension: class instances / named tuples / unreadable objects (`unprocessed`) inside the same model and theorems.
     # The property's quantifier speaks about dict / list / tuple / str / numbers / None only: what fails here is
@@ -1356,7 +1438,8 @@ def run(ctx):
 
 
 def _eval(text):
-    return eval(text, {"__builtins__": {}}, dict({"frozenset": frozenset, "set": set, "re": re}, **CLASSES, **NAMED))
+    return eval(text, {"__builtins__": {}}, dict({"frozenset": frozenset, "set": set, "re": re, "Decimal": Decimal, "datetime": datetime,
+                                                 "nan": float("nan"), "inf": float("inf")}, **CLASSES, **NAMED))
 
 
 def replay(ctx, data):
